@@ -223,7 +223,7 @@ VERSIONS = ["21", "7.0", "2.1.3", "Rawhide"]
 TIMESTAMPS = [1, 123456, 2 ** 33]
 PLATFORM_POOL = ["xen", "efi", "ppc64le"]
 OPTION_NAMES = ["kernel", "Mixed.Case", "dir/with space.img"]
-PATH_VALUES = ["Some/Packages", "", ".", "../../appstream/x86_64/", "./Packages/"]
+PATH_VALUES = ["Some/Packages", "", ".", "../../appstream/x86_64/", "./Packages/", "repo/Server"]
 DIGESTS = {"md5": "1" * 32, "sha1": "2" * 40, "sha256": "3" * 64, "sha512": "4" * 128}
 
 
